@@ -112,7 +112,7 @@ Proof.
     destruct (remove_tail s s4 id I U (sent_CoreV _ _ _ X4 C3) F4) as (A1 & A2 & A3).
     { rewrite R4. exact Hn3. }
     { intros x Hne. rewrite R4. apply (in_perm_cons _ _ _ _ P3 Hne). }
-    split; [exact A1|]. split; [intros H _; auto|]. split; [intros H _; auto|].
+    split; [exact A1|]. split; [intros H; auto|]. split; [intros H _; auto|].
     change (raw_ids (del_store id s4)) with (raw_ids s4). change (log (del_store id s4)) with (log s4 ++ [StoreRemove id]).
     rewrite (sn_log _ _ _ X4), L3, (e_log _ _ X2), (e_log _ _ X1), L. simpl.
     apply (n_remove id idx _ (raw_ids s3)); [rewrite <- R1; exact Hnth | exact P3 | exact Hn3 |].
@@ -124,7 +124,7 @@ Proof.
     destruct (remove_tail s s1 id I (um_upd _ _ (e_updm _ _ X1)) C1) as (A1 & A2 & A3); auto.
     { eapply FocusOk_eq; [apply (e_view _ _ X1) | apply (e_focus _ _ X1) | apply (i_focus _ I)]. }
     { intros x _. rewrite R1. tauto. }
-    split; [exact A1|]. split; [intros H _; auto|]. split; [intros H _; auto|].
+    split; [exact A1|]. split; [intros H; auto|]. split; [intros H _; auto|].
     change (raw_ids (del_store id s1)) with (raw_ids s1). change (log (del_store id s1)) with (log s1 ++ [StoreRemove id]).
     rewrite (e_log _ _ X1), L. simpl. apply n_sremove, n_done. rewrite R1. reflexivity.
 Qed.
@@ -192,8 +192,8 @@ Proof.
     eapply sget_ids; eauto. }
   assert (Si0 : SidsOk s0).
   { intros x H. simpl. apply in_or_app. left. apply (i_sids _ I). exact H. }
-  change (filt s0) with (filt s).
-  destruct (fmatches (filt s) f) eqn:Emf.
+  destruct (shows s0 f) eqn:Esh.
+  - apply shows_true in Esh as [Emf Emk].
   - change (_base_add id ;;; ff <- gets focus_follow ;; (if ff then focus_set_flow (Some id) else ret tt) ;;; send_view_add id)
       with (show_flow id).
     assert (Hst0 : In id (store s0)) by (simpl; apply in_or_app; right; left; reflexivity).
@@ -215,8 +215,8 @@ Proof.
       * intros x H Hw. apply Mem. rewrite (ce_store _ _ Cf) in H. simpl in H. apply in_app_iff in H.
         destruct H as [H|[H|[]]]; [|left; auto]. right. apply (i_m2 _ I); [exact H|].
         unfold wanted in *. rewrite (attr_cfg _ _ x Cf), (ce_filt _ _ Cf), (ce_sm _ _ Cf), Atne in Hw by exact H. exact Hw.
-    + intros H3 Hg Hs x H. rewrite (ce_sm _ _ Cf) in Hs. rewrite (attr_cfg _ _ x Cf). apply Mem in H. destruct H as [->|H].
-      * rewrite Atid. apply Hg; auto.
+    + intros H3 Hs x H. rewrite (ce_sm _ _ Cf) in Hs. rewrite (attr_cfg _ _ x Cf). apply Mem in H. destruct H as [->|H].
+      * rewrite Atid. apply Emk. exact Hs.
       * rewrite Atne by auto. apply H3; auto.
     + intros Fr _. eapply Fresh_upd; [apply (um_upd _ _ U1) | apply Fr0; exact Fr].
     + rewrite L1. simpl. rewrite L. simpl. apply (n_add id _ (raw_ids s1)); [exact Hn | symmetry; exact P1 | apply n_done; reflexivity].
@@ -226,8 +226,8 @@ Proof.
       * intros x H. rewrite Atne by auto. apply (i_m1 _ I). exact H.
       * intros x H Hw. simpl in H. apply in_app_iff in H. destruct H as [H|[H|[]]].
         { apply (i_m2 _ I); [exact H|]. unfold wanted in *. rewrite Atne in Hw by exact H. exact Hw. }
-        { subst x. unfold wanted in Hw. rewrite Atid in Hw. change (filt s0) with (filt s) in Hw. rewrite Emf in Hw. discriminate. }
-    + intros H3 _ Hs x H. rewrite Atne by auto. apply H3; auto.
+        { subst x. rewrite <- shows_wanted, Atid, Esh in Hw. discriminate. }
+    + intros H3 Hs x H. rewrite Atne by auto. apply H3; auto.
     + intros Fr _. apply Fr0, Fr.
     + simpl. rewrite L. apply n_done. reflexivity.
 Qed.
